@@ -2,6 +2,8 @@ package values
 
 import (
 	"reflect"
+
+	yaml "gopkg.in/yaml.v2"
 )
 
 var (
@@ -14,6 +16,21 @@ func Equal(a, b any) bool { //nolint: gocyclo
 	a, b = ToLiquid(a), ToLiquid(b)
 	if a == nil || b == nil {
 		return a == b
+	}
+	// an ordered map is a map, not an array of its entries: it equals only an ordered map with
+	// equal keys and values in the same order
+	ma, aok := a.(yaml.MapSlice)
+	mb, bok := b.(yaml.MapSlice)
+	if aok || bok {
+		if !aok || !bok || len(ma) != len(mb) {
+			return false
+		}
+		for i := range ma {
+			if !Equal(ma[i].Key, mb[i].Key) || !Equal(ma[i].Value, mb[i].Value) {
+				return false
+			}
+		}
+		return true
 	}
 	ra, rb := reflect.ValueOf(a), reflect.ValueOf(b)
 	switch joinKind(ra.Kind(), rb.Kind()) {
